@@ -77,10 +77,12 @@ struct Setup {
 fn setup(seed: u64, name: &str) -> Setup {
     let mut rng = StdRng::seed_from_u64(seed);
     let rng = &mut rng;
-    let last_n = *[3u64, 5][..].get(rng.gen_range(0..2)).unwrap();
-    let interval = last_n.max(3) + rng.gen_range(0..=2);
-    let a_len = rng.gen_range((last_n as usize + 5)..=18);
-    let depth = rng.gen_range(1..=(last_n as usize - 1)).min(a_len - 3);
+    // last-N 20 covers the whole chain: no sampling, hence no randomness of the client's sampler in the history
+    // (the three runs of an experiment must start from the same state, or the experiment is discarded)
+    let last_n = *[3u64, 5, 20, 20][..].get(rng.gen_range(0..4)).unwrap();
+    let interval = if last_n == 20 { rng.gen_range(5..=6) } else { last_n.max(3) + rng.gen_range(0..=2) };
+    let a_len = if last_n == 20 { rng.gen_range(10..=18) } else { rng.gen_range((last_n as usize + 5)..=18) };
+    let depth = rng.gen_range(1..=(last_n.min(5) as usize - 1)).min(a_len - 3);
     let p = ChainParams { pow: "dummy".to_owned(), epoch_len: (3, 8), vary_difficulty: false };
     let scripts = gen::default_scripts();
     let mut chain = SimChain::new("dummy", &scripts);
@@ -133,11 +135,14 @@ fn setup(seed: u64, name: &str) -> Setup {
     }
     // filter sync on A, one step at a time; stop somewhere with a request outstanding
     let stop_after = rng.gen_range(1..=14);
+    // half of the histories stop with a block download outstanding (the arrival of a matched block is then one
+    // of the operations), the others at the first outstanding request of either kind
+    let want_blocks = rng.gen_bool(0.5);
     let mut steps = 0;
     for _ in 0..200 {
         let filters_at = (0..2).find(|i| sim.inbox.iter().any(|x| x.peer == env.peers[*i].idx && matches!(sim::filter_request(x), Some(("filters", _)))));
         let blocks_at = (0..2).find(|i| sim.inbox.iter().any(|x| x.peer == env.peers[*i].idx && sim::as_get_blocks(x).is_some()));
-        if steps >= stop_after && (filters_at.is_some() || blocks_at.is_some()) {
+        if steps >= stop_after && (blocks_at.is_some() || (filters_at.is_some() && (!want_blocks || steps >= stop_after + 25))) {
             break;
         }
         steps += 1;
@@ -488,8 +493,44 @@ fn take_buf(s: &Setup) -> Vec<u8> {
     std::mem::take(&mut *s.buf.0.lock().unwrap())
 }
 
+/// What the three runs of an experiment must agree on before the operations fire: the state C17 compares
+/// (Trace_FilterSync!Core) and the requests the operations answer.  Request bookkeeping that the client draws at
+/// random (the sampled difficulties of a proof request) is left out.
 fn core_state(s: &Setup) -> Value {
-    s.sim.state()
+    let st = s.sim.state();
+    let mut core = serde_json::Map::new();
+    for k in ["scripts", "minF", "mdb", "mmem", "cells", "hist", "txs", "hdrs", "nums", "cpFinal", "tip", "tipTD", "lastN", "cached"] {
+        core.insert(k.to_string(), st[k].clone());
+    }
+    let mut proved = serde_json::Map::new();
+    if let Some(peers) = st["peer"].as_object() {
+        for (p, v) in peers.iter() {
+            proved.insert(p.clone(), json!([v["st"], v["proved"], v["pLastN"], v["last"], v["req"]["on"], v["req"]["last"], v["req"]["start"]]));
+        }
+    }
+    core.insert("peer".to_string(), Value::Object(proved));
+    core.insert("pf".to_string(), st["pf"].clone());
+    let mut inbox: Vec<String> = s
+        .sim
+        .inbox
+        .iter()
+        .filter_map(|x| {
+            if let Some((k, start)) = sim::filter_request(x) {
+                Some(format!("{}:{}:{}", x.peer.value(), k, start))
+            } else if let Some(r) = sim::as_get_blocks(x) {
+                Some(format!("{}:blocks:{}", x.peer.value(), r.block_hashes().len()))
+            } else if sim::as_get_blocks_proof(x).is_some() {
+                Some(format!("{}:bproof", x.peer.value()))
+            } else if sim::as_get_last_state_proof(x).is_some() {
+                Some(format!("{}:lsproof", x.peer.value()))
+            } else {
+                None
+            }
+        })
+        .collect();
+    inbox.sort();
+    core.insert("inbox".to_string(), json!(inbox));
+    Value::Object(core)
 }
 
 pub fn run(kv: &HashMap<String, String>) -> i32 {
@@ -553,6 +594,15 @@ pub fn run(kv: &HashMap<String, String>) -> i32 {
             drop(s2);
             if pre1 != pre2 {
                 discarded += 1;
+                if std::env::var("VERIF_DEBUG").is_ok() {
+                    if let (Some(a), Some(b)) = (pre1.as_object(), pre2.as_object()) {
+                        for (k, v) in a.iter() {
+                            if b.get(k) != Some(v) {
+                                eprintln!("DISCARD {} differs: {} | {}", k, v.to_string().chars().take(300).collect::<String>(), b.get(k).map(|x| x.to_string()).unwrap_or_default().chars().take(300).collect::<String>());
+                            }
+                        }
+                    }
+                }
                 continue;
             }
             let mut emitted_serial = false;
